@@ -8,7 +8,7 @@ pub fn sha(text: &[u8]) -> String {
     d.iter().map(|b| format!("{b:02x}")).collect()
 }
 
-pub const OUTCOMES: [&str; 14] = [
+pub const OUTCOMES: [&str; 16] = [
     "Theorem",
     "CounterSatisfiable",
     "ContradictoryAxioms",
@@ -23,11 +23,13 @@ pub const OUTCOMES: [&str; 14] = [
     "NoStatusNonZeroExit",
     "KilledBySignal",
     "ExitWithoutReading",
+    "TheoremAfterLongOutput",
+    "TimeoutAfterLongOutput",
 ];
 
 /// does a prover run with this outcome print `SZS status Theorem` (in valid UTF-8 output)?
 pub fn prints_theorem(outcome: &str) -> bool {
-    matches!(outcome, "Theorem" | "TheoremNonZeroExit")
+    matches!(outcome, "Theorem" | "TheoremNonZeroExit" | "TheoremAfterLongOutput")
 }
 
 pub fn main() -> ! {
@@ -54,6 +56,14 @@ pub fn main() -> ! {
     let code = match outcome.as_str() {
         "Theorem" => {
             let _ = out.write_all(status("Theorem").as_bytes());
+            0
+        }
+        "TheoremAfterLongOutput" | "TimeoutAfterLongOutput" => {
+            // what a portfolio prover prints before it succeeds: many failed strategies (about 8 KB)
+            for k in 0..24 {
+                let _ = out.write_all(format!("% lrs+1011_{k}:1_bd=off:nwc=1.5:sac=on_300 on stdin\n% (1234)Time limit reached!\n% ------------------------------\n% Version: Vampire 4.8\n% Termination reason: Time limit\n% Termination phase: Saturation\n% Memory used [KB]: 12345\n% Time elapsed: 0.300 s\n% ------------------------------\n% ------------------------------\n").as_bytes());
+            }
+            let _ = out.write_all(status(if outcome == "TheoremAfterLongOutput" { "Theorem" } else { "Timeout" }).as_bytes());
             0
         }
         "CounterSatisfiable" | "ContradictoryAxioms" | "Timeout" | "MemoryOut" | "GaveUp" | "Error" => {
